@@ -79,7 +79,7 @@ func main() {
 	}
 	ld.ModulePrefix = "filippo.io/age"
 	fmt.Fprintf(os.Stderr, "loaded in %v\n", ld.LoadWall)
-	cfg := &interp.Config{Solver: *solver, Solver2: "z3", FeasTimeoutMs: 10000, AssertTimeout: 60 * time.Second, MaxPaths: *maxPaths, Trace: *trace, Params: map[string]int64{}}
+	cfg := &interp.Config{Solver: *solver, Solver2: "z3", FeasTimeoutMs: 4000, AssertTimeout: 60 * time.Second, MaxPaths: *maxPaths, Trace: *trace, Params: map[string]int64{}}
 	for _, kv := range strings.Split(*params, ",") {
 		if k, v, ok := strings.Cut(kv, "="); ok {
 			var n int64
